@@ -48,6 +48,8 @@ func (u *Unit) queryText(ob *Obligation, getValues []string) string {
 	b.WriteString("(check-sat)\n")
 	if len(getValues) > 0 {
 		fmt.Fprintf(&b, "(get-value (%s))\n", strings.Join(getValues, " "))
+	} else {
+		b.WriteString("(get-model)\n")
 	}
 	return b.String()
 }
